@@ -39,7 +39,7 @@ var admins = []adminT{
 	}, rig.THeartBt},
 }
 
-var damages = []string{"bad-checksum", "bad-length", "non-numeric-body-field", "non-numeric-header-field", "bad-checksum+missing-seqnum", "bad-checksum+non-numeric-seqnum", "bad-length+missing-seqnum", "none(state-not-permitted)", "state-not-permitted+missing-seqnum", "state-not-permitted+non-numeric-seqnum", "non-numeric-seqnum", "empty-seqnum", "empty-numeric-body-field", "checksum-plus-256", "checksum-unpadded-or-signed"}
+var damages = []string{"bad-checksum", "bad-length", "non-numeric-body-field", "non-numeric-header-field", "bad-checksum+missing-seqnum", "bad-checksum+non-numeric-seqnum", "bad-length+missing-seqnum", "none(state-not-permitted)", "state-not-permitted+missing-seqnum", "state-not-permitted+non-numeric-seqnum", "non-numeric-seqnum", "empty-seqnum", "empty-numeric-body-field", "checksum-plus-256", "checksum-unpadded-or-signed", "equals-sign-lost-before-seqnum", "doubled-delimiter-before-seqnum", "equals-sign-lost-after-seqnum"}
 
 func damage(kind string, a adminT, m []byte) ([]byte, bool, bool) {
 	// returns message, ok, seqUsable
@@ -92,6 +92,26 @@ func damage(kind string, a adminT, m []byte) ([]byte, bool, bool) {
 			v = "+" + strconv.Itoa(sum)
 		}
 		return append(append([]byte(nil), m[:cut+1]...), []byte("10="+v+"\x01")...), true, true
+	case "equals-sign-lost-before-seqnum", "equals-sign-lost-after-seqnum", "doubled-delimiter-before-seqnum":
+		// transmission damage that leaves a field without '=' (or an empty field) in the header, in front of or behind
+		// the sequence number: BodyLength and CheckSum no longer fit, the sequence number is intact
+		tag := rig.TTarget // precedes MsgSeqNum in the peer's messages
+		if kind == "equals-sign-lost-after-seqnum" {
+			tag = rig.TTime
+		}
+		at := bytes.Index(m, []byte("\x01"+tag+"="))
+		if at < 0 || bytes.Index(m, []byte("\x01"+rig.TSeq+"=")) < 0 {
+			return nil, false, true
+		}
+		out := append([]byte(nil), m[:at+1]...)
+		if kind == "doubled-delimiter-before-seqnum" {
+			out = append(out, 1)
+			out = append(out, m[at+1:]...)
+		} else {
+			out = append(out, []byte(tag)...)
+			out = append(out, m[at+1+len(tag)+1:]...)
+		}
+		return out, true, true
 	case "empty-numeric-body-field":
 		if a.numeric == "" {
 			return nil, false, true
@@ -120,7 +140,7 @@ type cell struct {
 
 func main() {
 	c := vk.Init("C16")
-	c.Rule("matrix: admin type {Logon, Logout, Heartbeat, TestRequest, ResendRequest, a Logon naming other parties / interval / credentials} x damage {wrong checksum, wrong body length, non-numeric body field, non-numeric header field, wrong checksum/length + missing or non-numeric MsgSeqNum, undamaged but not permitted in the state, not permitted in the state and MsgSeqNum missing or non-numeric (correct framing), correct framing with a non-numeric or EMPTY MsgSeqNum value, an EMPTY numeric body field, a CheckSum value 256 above the right one, the right value without zero padding or with a sign} x session state {waiting, logged on, logged on with the session's own TestRequest pending (real time, N=1; timer Heartbeats/TestRequests are not counted as answers)} x role x position (after 0..3 valid messages) x follow-up valid traffic; plus, over a scripted connection while logged on, every admin type with a CheckSum field whose value is 0, 1, 2, 4 or 5 characters long followed by a valid TestRequest; in every sixth cell two application observers for the message type, registered before Session.Run, are removed in registration order before the invalid message arrives; tag 35 itself is never damaged. Oracle per offending step: exactly one message emitted and it is a Reject with 45 = the offending 34 (or 371 = 34 when 34 is missing/non-numeric); IsLogged unchanged; context not cancelled and handler still running; the following valid message has its normal effect (TestRequest answered when logged on, good Logon accepted when waiting). distinct = matrix cell x position x seqnum; non-trivial = all")
+	c.Rule("matrix: admin type {Logon, Logout, Heartbeat, TestRequest, ResendRequest, a Logon naming other parties / interval / credentials} x damage {wrong checksum, wrong body length, non-numeric body field, non-numeric header field, wrong checksum/length + missing or non-numeric MsgSeqNum, undamaged but not permitted in the state, not permitted in the state and MsgSeqNum missing or non-numeric (correct framing), correct framing with a non-numeric or EMPTY MsgSeqNum value, an EMPTY numeric body field, a CheckSum value 256 above the right one, the right value without zero padding or with a sign, a header field in front of / behind MsgSeqNum that lost its '=' and a doubled delimiter in front of MsgSeqNum (framing left as it was, so the integrity check fails)} x session state {waiting, logged on, logged on with the session's own TestRequest pending (real time, N=1; timer Heartbeats/TestRequests are not counted as answers)} x role x position (after 0..3 valid messages) x follow-up valid traffic; plus, over a scripted connection while logged on, every admin type with a CheckSum field whose value is 0, 1, 2, 4 or 5 characters long followed by a valid TestRequest; in every sixth cell two application observers for the message type, registered before Session.Run, are removed in registration order before the invalid message arrives; tag 35 itself is never damaged. Oracle per offending step: exactly one message emitted and it is a Reject with 45 = the offending 34 (or 371 = 34 when 34 is missing/non-numeric); IsLogged unchanged; context not cancelled and handler still running; the following valid message has its normal effect (TestRequest answered when logged on, good Logon accepted when waiting). distinct = matrix cell x position x seqnum; non-trivial = all")
 	c.Assume("a message whose only defect is a missing sequence number is not in the statement's list; 'state-not-permitted' cells are: Heartbeat/TestRequest/ResendRequest/Logout while waiting, Logon while logged on")
 	reps := c.Pick(10, 120)
 	var cells []cell
